@@ -16,6 +16,55 @@ import (
 	"strings"
 )
 
+// funcWrites: what one function declaration writes directly, and whom it calls.
+type funcWrites struct {
+	keys    map[string]types.Type // struct field keys (heapKeyOf) -> field type
+	derefs  []types.Type          // pointee types written through *p = v
+	globals []*types.Var          // package-level variables assigned
+	edges   map[string]bool       // repository functions called statically
+	unknown string                // non-empty: calls code that is not statically known (function value, interface method)
+}
+
+// WriteSetOf returns the heap cells a call of the repository function may write: the direct writes of every
+// function statically reachable from it, plus the fields reflection-based library code may write (escaped
+// types, protobuf messages). ok=false when the call tree contains a call that is not statically resolved.
+func (w *World) WriteSetOf(full string) (keys map[string]types.Type, derefs []types.Type, globals []*types.Var, ok bool, why string) {
+	w.WrittenFields()
+	keys = map[string]types.Type{}
+	seen := map[string]bool{}
+	stack := []string{full}
+	for len(stack) > 0 {
+		f := stack[len(stack)-1]
+		stack = stack[:len(stack)-1]
+		if seen[f] {
+			continue
+		}
+		seen[f] = true
+		fw := w.funcWrites[f]
+		if fw == nil {
+			if fi := w.Funcs[f]; fi != nil && fi.Decl.Body != nil {
+				return nil, nil, nil, false, "no write summary for " + f
+			}
+			continue
+		}
+		if fw.unknown != "" {
+			return nil, nil, nil, false, f + " " + fw.unknown
+		}
+		for k, t := range fw.keys {
+			keys[k] = t
+		}
+		derefs = append(derefs, fw.derefs...)
+		globals = append(globals, fw.globals...)
+		for e := range fw.edges {
+			stack = append(stack, e)
+		}
+	}
+	for k, t := range w.escapedKeys {
+		keys[k] = t
+	}
+	return keys, derefs, globals, true, ""
+}
+
 func (w *World) WrittenFields() map[string]bool {
 	w.writtenMu.Lock()
 	defer w.writtenMu.Unlock()
@@ -23,6 +72,9 @@ func (w *World) WrittenFields() map[string]bool {
 		return w.written
 	}
 	out := map[string]bool{}
+	w.funcWrites = map[string]*funcWrites{}
+	w.escapedKeys = map[string]types.Type{}
+	var cur *funcWrites
 	markAll := func(t types.Type) {
 		if p, ok := t.Underlying().(*types.Pointer); ok {
 			t = p.Elem()
@@ -37,6 +89,7 @@ func (w *World) WrittenFields() map[string]bool {
 		}
 		for i := 0; i < st.NumFields(); i++ {
 			out[heapKeyOf(named, st.Field(i).Name())] = true
+			w.escapedKeys[heapKeyOf(named, st.Field(i).Name())] = st.Field(i).Type()
 		}
 	}
 	for path, pkg := range w.ByPath {
@@ -62,6 +115,9 @@ func (w *World) WrittenFields() map[string]bool {
 				f := st.Field(ix)
 				if named, ok := types.Unalias(t).(*types.Named); ok && (i == len(idx)-1 || true) {
 					out[heapKeyOf(named, f.Name())] = true
+					if cur != nil {
+						cur.keys[heapKeyOf(named, f.Name())] = f.Type()
+					}
 				}
 				t = f.Type()
 			}
@@ -80,6 +136,9 @@ func (w *World) WrittenFields() map[string]bool {
 					if pt, ok := info.TypeOf(x.X).Underlying().(*types.Pointer); ok {
 						if tok := basicSortToken(pt.Elem()); tok != "" {
 							out["deref:"+tok] = true
+						}
+						if cur != nil {
+							cur.derefs = append(cur.derefs, pt.Elem())
 						}
 					}
 					e = x.X
@@ -114,11 +173,19 @@ func (w *World) WrittenFields() map[string]bool {
 			ast.Inspect(file, func(n ast.Node) bool {
 				switch s := n.(type) {
 				case *ast.FuncDecl:
+					cur = nil
 					if obj, ok := info.Defs[s.Name].(*types.Func); ok {
 						resultTypes = append(resultTypes, obj.Type().(*types.Signature).Results())
+						cur = &funcWrites{keys: map[string]types.Type{}, edges: map[string]bool{}}
+						w.funcWrites[obj.FullName()] = cur
 					}
 				case *ast.AssignStmt:
 					for i, l := range s.Lhs {
+						if id, ok := l.(*ast.Ident); ok && cur != nil {
+							if v, ok := info.Uses[id].(*types.Var); ok && v.Pkg() != nil && v.Parent() == v.Pkg().Scope() {
+								cur.globals = append(cur.globals, v)
+							}
+						}
 						markChain(l)
 						if len(s.Lhs) == len(s.Rhs) {
 							escapes(s.Rhs[i], info.TypeOf(l))
@@ -182,6 +249,51 @@ func (w *World) WrittenFields() map[string]bool {
 							escapes(s.Args[0], tv.Type)
 						}
 						return true
+					}
+					if cur != nil && !(ok && tv.IsBuiltin()) {
+						var callee *types.Func
+						switch f := s.Fun.(type) {
+						case *ast.Ident:
+							callee, _ = info.Uses[f].(*types.Func)
+						case *ast.SelectorExpr:
+							if sel := info.Selections[f]; sel != nil {
+								callee, _ = sel.Obj().(*types.Func)
+								if callee != nil {
+									if _, isIface := sel.Recv().Underlying().(*types.Interface); isIface {
+										pp := ""
+										if callee.Pkg() != nil {
+											pp = callee.Pkg().Path()
+										}
+										if !strings.Contains(pp, "protobuf/reflect") && !strings.Contains(pp, "protobuf/compiler") {
+											if impl := w.repoImplementer(sel.Recv()); impl != "" && cur.unknown == "" {
+												cur.unknown = "calls interface method " + callee.FullName() + " (implemented by " + impl + ") at " + w.pos(s.Pos())
+											}
+										}
+										callee = nil
+									}
+								}
+							} else {
+								callee, _ = info.Uses[f.Sel].(*types.Func)
+							}
+						case *ast.IndexExpr:
+							if id, ok := f.X.(*ast.Ident); ok {
+								callee, _ = info.Uses[id].(*types.Func)
+							}
+						}
+						if callee != nil {
+							if callee.Origin() != nil {
+								callee = callee.Origin()
+							}
+							if w.IsRepoFunc(callee) {
+								cur.edges[callee.FullName()] = true
+							}
+						} else if _, isSel := s.Fun.(*ast.SelectorExpr); !isSel || info.Selections[s.Fun.(*ast.SelectorExpr)] == nil || info.Selections[s.Fun.(*ast.SelectorExpr)].Kind() == types.FieldVal {
+							if _, isLit := s.Fun.(*ast.FuncLit); !isLit {
+								if cur.unknown == "" {
+									cur.unknown = "calls a function value at " + w.pos(s.Pos())
+								}
+							}
+						}
 					}
 					// pointer-receiver method on an addressable field value
 					if sel, ok := s.Fun.(*ast.SelectorExpr); ok {
@@ -291,6 +403,34 @@ func basicSortToken(t types.Type) string {
 		return "String"
 	case b.Info()&types.IsFloat != 0:
 		return "Real"
+	}
+	return ""
+}
+
+// repoImplementer: a named type of the repository (or of the extracted packages) that implements the interface
+// type t, "" if none does: a call through such an interface can only reach library code.
+func (w *World) repoImplementer(t types.Type) string {
+	iface, ok := t.Underlying().(*types.Interface)
+	if !ok || iface.NumMethods() == 0 {
+		return "any type"
+	}
+	for path, pkg := range w.ByPath {
+		if !w.RepoPaths[path] || pkg.Types == nil {
+			continue
+		}
+		scope := pkg.Types.Scope()
+		for _, name := range scope.Names() {
+			tn, ok := scope.Lookup(name).(*types.TypeName)
+			if !ok || tn.IsAlias() {
+				continue
+			}
+			if _, isIface := tn.Type().Underlying().(*types.Interface); isIface {
+				continue
+			}
+			if types.Implements(tn.Type(), iface) || types.Implements(types.NewPointer(tn.Type()), iface) {
+				return tn.Pkg().Name() + "." + tn.Name()
+			}
+		}
 	}
 	return ""
 }
